@@ -4,6 +4,7 @@ pub mod c03;
 pub mod c04;
 pub mod c06x;
 pub mod c09;
+pub mod c09b;
 pub mod c10;
 pub mod c13;
 pub mod c14;
